@@ -9,7 +9,7 @@ def replay(doc: dict) -> int:
     kind = doc.get("kind")
     if kind == "gateway-history":
         return corecheck.replay(doc)
-    if kind in ("persist-load", "persist-roundtrip"):
+    if kind in ("persist-load", "persist-roundtrip", "persist-snapshot"):
         return persist.replay(doc)
     if kind == "lifecycle-run":
         return lifecycle.replay(doc)
